@@ -51,8 +51,9 @@ def rangeLoop (b : UInt8) : Nat → UInt8 → ByteSet → ByteSet
   | 0, _, s => s
   | fuel + 1, i, s => if i < b then rangeLoop b fuel (i + 1) (s.add i) else s
 
-/-- `func byteRange(a, b byte) (s byteSet)`; note: for `a > b` the loop does not run and `b` is still added -/
-def byteRange (a b : UInt8) : ByteSet := (rangeLoop b 256 a empty).add b
+/-- `func byteRange(a, b byte) (s byteSet)`: a descending range (`a > b`) is empty -/
+def byteRange (a b : UInt8) : ByteSet :=
+  if a > b then empty else (rangeLoop b 256 a empty).add b
 
 def ofWords (w : Nat × Nat × Nat × Nat) : ByteSet :=
   ⟨BitVec.ofNat 64 w.1, BitVec.ofNat 64 w.2.1, BitVec.ofNat 64 w.2.2.1, BitVec.ofNat 64 w.2.2.2⟩
